@@ -212,6 +212,25 @@ func (fc *FnCtx) unknownCall(ins ssa.Instruction, name string, sig *types.Signat
 		}
 		rs = append(rs, Val{t: n, ty: rt})
 	}
+	if pure {
+		// out-parameters: a pure external may still write through pointers to local variables
+		if cc := callCommonOf(ins); cc != nil {
+			for _, a := range cc.Args {
+				x := a
+				if mi, ok := a.(*ssa.MakeInterface); ok {
+					x = mi.X
+				}
+				if al, ok := x.(*ssa.Alloc); ok {
+					T := al.Type().Underlying().(*types.Pointer).Elem()
+					nv := g.fresh(fc.prefix+"out."+al.Name(), g.sortOf(T))
+					fc.storeWhole(fc.term(al).t, T, nv)
+					if rc := g.sorts.rangeConstraint(T, nv); rc != "" {
+						fc.assume(rc, "range")
+					}
+				}
+			}
+		}
+	}
 	if !pure {
 		for _, r := range rs {
 			fc.boundRefs(r.ty, r.t)
